@@ -1163,8 +1163,61 @@ def validate_push_data(rng, n, res):
     res.extra["translation_validation_push_data"] = stats
 
 
+def validate_notify(rng, n, res):
+    """`Output.notify_targets`, `Adapter.notify_targets`, `Adapter.source_updated` of real objects with recording targets
+    (pull-based and push-based ones alike) against the translated definitions"""
+    need = ("Output_notify_targets", "Adapter_notify_targets", "Adapter_source_updated")
+    if not all(common.TRANSLATION_STATUS.get(f, {}).get("translated") for f in need):
+        return
+
+    class _T:
+        def __init__(self, k, log, push):
+            self.k, self.log, self.needs_push, self.needs_pull = k, log, push, not push
+
+        def source_updated(self, t):
+            self.log.append([self.k, None if t is None else us_of(t)])
+
+    reqs, reals = [], []
+    stats = {f: 0 for f in need}
+    stats.update({"targets": 0, "mismatch": 0})
+    for _ in range(n):
+        fn = rng.choice(need)
+        ids = rng.sample(range(6), rng.randint(0, 4))
+        log = [[9, 0]] if rng.random() < 0.2 else []
+        before = [list(x) for x in log]
+        t = rng.choice([None, 0, 1, 5])
+        tt = None if t is None else EPOCH + t * dt.timedelta(hours=1)
+        targets = [_T(k, log, rng.random() < 0.5) for k in ids]
+        if fn == "Output_notify_targets":
+            obj = fm.Output(name="o", static=t is None, info=fm.Info(time=None if t is None else EPOCH, grid=fm.NoGrid(), units="m"))
+            obj._targets = targets
+            call = obj.notify_targets
+        else:
+            obj = fm.adapters.Scale(1.0)
+            obj._targets = targets
+            obj._source_updated = lambda _t: None
+            call = obj.notify_targets if fn == "Adapter_notify_targets" else obj.source_updated
+        try:
+            call(tt)
+            real = {"ok": [list(x) for x in log]}
+        except Exception as e:  # noqa
+            real = {"err": err_class(e)}
+        reqs.append({"fn": fn, "args": [ids, before, None if t is None else us_of(tt)]})
+        reals.append(real)
+        stats["targets"] += len(ids)
+    for rq, real, lv in zip(reqs, reals, _trdriver(reqs)):
+        stats[rq["fn"]] += 1
+        agree = (real.get("err") == lv.get("err")) if ("err" in real or "err" in lv) else [list(p) for p in lv["ok"]] == real["ok"]
+        if not agree:
+            stats["mismatch"] += 1
+            res.diverge("translation/" + rq["fn"], {"fn": rq["fn"], "args": rq["args"]}, real, lv)
+    res.extra["translation_validation_notify"] = stats
+
+
 def validate(prop, rng, n_per_fn, res):
     """runs the validation for the translated functions owned by `prop`; divergences go to `res`"""
+    if prop in ("C01", "C11", "C12") and os.path.exists(TRDRIVER):
+        validate_notify(rng, max(150, n_per_fn), res)
     if prop == "C06" and os.path.exists(TRDRIVER):
         validate_push_data(rng, max(200, n_per_fn), res)
     if prop == "C10" and os.path.exists(TRDRIVER):
